@@ -558,15 +558,17 @@ def check_swap_consistency(new_out_ops2, new_out_ops3, out_ops3_expanded):
         swapped_out_ops3_expanded.append(_grouped_to_list(grouped))
 
     # the following check ensures that the swapping logic is correct
+    # the QR decomposition discards coefficients relative to the largest one of the whole two-site operator
+    # (see `_decompose_qr`), so the tolerance has to be relative to that scale
+    # and small terms can be missing in one of the two expansions
+    scale = max(abs(op[-1]) for row in swapped_out_ops3_expanded + swapped_new_out_ops3_expanded for op in row)
     for row1, row2 in zip(swapped_out_ops3_expanded, swapped_new_out_ops3_expanded):
-        if not len(row1) == len(row2):
-            print("ok")
-        assert len(row1) == len(row2)
         assert sorted(row1) == row1
         assert sorted(row2) == row2
-        for op1, op2 in zip(sorted(row1), sorted(row2)):
-            assert  op1[:-1] == op2[:-1]
-            np.testing.assert_allclose(op1[-1], op2[-1], rtol=1e-8, atol=1e-11)
+        coef1 = {op[:-1]: op[-1] for op in row1}
+        coef2 = {op[:-1]: op[-1] for op in row2}
+        for key in sorted(set(coef1) | set(coef2)):
+            np.testing.assert_allclose(coef1.get(key, 0), coef2.get(key, 0), rtol=1e-8, atol=1e-8 * scale)
 
 
 def _grouped_to_list(grouped: Dict[Tuple, float]) -> List[Tuple]:
